@@ -98,7 +98,7 @@ func (b *built) showText(q *mquery) string {
 
 // genShowQuery draws a query expressible as a SHOW statement.
 func genShowQuery(t *rapid.T, b *built) *mquery {
-	q := &mquery{Auth: genAuth(t), Front: "influxql", Exact: true}
+	q := &mquery{Auth: genAuth(t, b.d.Series), Front: "influxql", Exact: true}
 	q.Kind = rapid.SampledFrom([]string{"measurements", "tagkeys", "tagvalues", "tagvalues"}).Draw(t, "skind")
 	nameLeaf := func(label string) *cexpr {
 		if rapid.Bool().Draw(t, label+"re") {
@@ -219,5 +219,13 @@ func TestPropShowStatements(t *testing.T) {
 		for i := 0; i < 6; i++ {
 			b.checkQuery(t, "TestPropShowStatements", genShowQuery(t, b))
 		}
+		// one SHOW MEASUREMENTS WHERE <tag clause> under a fine-grained authorizer built from the data
+		q := genScanQuery(t, b)
+		if q.MCond.Kind == "and" { // (_name list) AND (clause): keep the clause
+			q.MCond = q.MCond.Kids[1].Kids[0]
+		}
+		q.Front, q.Filter = "influxql", q.MCond
+		b.checkQuery(t, "TestPropShowStatements", q)
+		rec.Class("query:measurements-tag-clause+fine-authorizer(targeted)")
 	})
 }
